@@ -25,6 +25,8 @@ def docstring_lines(rng, ind, uid, nblocks, layout, quote='"""', first_line_pros
     markers = []
     if layout == 'google':
         opening_header = rng.random() < 0.15
+        # one docstring in six spells ALL its headers the other accepted ways (a double colon, a blank before the colon)
+        alt_tags = ['Example::', 'Doctest::', 'Example :', 'Examples ::'] if rng.random() < 0.17 else None
         if opening_header:
             # the first block header stands on the opening line, directly behind the quotes
             L = []
@@ -33,7 +35,7 @@ def docstring_lines(rng, ind, uid, nblocks, layout, quote='"""', first_line_pros
         for b in range(nblocks):
             m = '%s_%d' % (uid, b)
             markers.append(m)
-            head = ind + rng.choice(GOOGLE_TAGS)
+            head = ind + rng.choice(alt_tags or GOOGLE_TAGS)
             if opening_header and b == 0:
                 head = ind + quote + head.strip()
             L += [head, ind + '    >>> print("%s")' % m, ind + '    %s' % m, '']
@@ -47,6 +49,7 @@ def docstring_lines(rng, ind, uid, nblocks, layout, quote='"""', first_line_pros
     L.append(ind + quote)
     ds = DocSpec(layout, markers)
     ds.opening_header = layout == 'google' and opening_header
+    ds.alt_tags = layout == 'google' and bool(alt_tags)
     return L, ds
 
 
@@ -80,6 +83,8 @@ class ModuleGen(object):
             self.spec.inventory[collect_as] = ds
             if getattr(ds, 'opening_header', False):
                 self.spec.features.add('google-header-on-the-opening-line')
+            if getattr(ds, 'alt_tags', False):
+                self.spec.features.add('google-headers-in-other-spellings')
         if forbid is not None:
             for m in ds.markers:
                 self.spec.forbidden[m] = forbid
@@ -491,13 +496,25 @@ def outcome_module(rng, uid, layout='google', kinds=None, n=None, in_class=True,
             ind = '    '
             callname = 'fn%d' % k
         src += [ind + '"""', ind + 'Summary.', '']
+        second = None
         if layout == 'google':
             src += [ind + 'Example:'] + [ind + '    ' + ln.replace('{id}', i) for ln in body]
+            if not lead and rng.random() < 0.2:
+                # a second block in the same docstring: a doctest of its own, <callname>:1
+                kind2 = rng.choice([kd for kd in kinds if kd not in LEFTOVER_READERS and not kd.startswith('disabled')])
+                body2, outcome2, marks2 = OUTCOMES[kind2]
+                i2 = i + 'b'
+                src += ['', ind + 'Example:'] + [ind + '    ' + ln.replace('{id}', i2) for ln in body2]
+                second = {'ident': '%s:1' % callname, 'callname': callname, 'kind': kind2, 'outcome': outcome2,
+                          'id': i2, 'marks': marks2}
         else:
             src += [ind + ln.replace('{id}', i) for ln in body]
         src += [ind + '"""', ind + 'return 1', '']
         om.tests.append({'ident': '%s:0' % callname, 'callname': callname, 'kind': kind, 'outcome': outcome,
                          'id': i, 'marks': marks})
+        if second:
+            om.tests.append(second)
+            prev = None
         k += 1
     om.src = '\n'.join(src) + '\n'
     return om
